@@ -87,7 +87,10 @@ class Model:
                 return None
             if src == "default":
                 return default_marker()
-            return eval(src, {})            # simple literals only
+            # (attribute values are entity-decoded before they are parsed,
+            # and ';;' stands for one ';' in define / attributes lists)
+            import html
+            return eval(html.unescape(src).replace(";;", ";"), {})
         if k == "pipe":
             alts = e["alts"]
             for i, a in enumerate(alts):
